@@ -66,10 +66,11 @@ def item_tok(it, model=False):
     if it[0] == "B":
         return "B:" + it[1].hex()
     if it[0] == "I":
-        # image: binary-wise a blob for the data and one for the mask
+        # image: ("I", kinds, data, mask[, data2, mask2]); binary-wise a blob per data and per mask
+        pairs = [(it[2 + 2 * k], it[3 + 2 * k]) for k in range(len(it[1]))]
         if model:
-            return "B:" + it[2].hex() + ("" if it[3] is None else " B:" + it[3].hex())
-        return "I:%s:%s:%s" % (it[1], it[2].hex(), "-" if it[3] is None else it[3].hex())
+            return " ".join("B:" + d.hex() + ("" if m is None else " B:" + m.hex()) for d, m in pairs)
+        return "I:%s:%s" % (it[1], ":".join("%s:%s" % (d.hex(), "-" if m is None else m.hex()) for d, m in pairs))
     return "P:%s:%s" % (gen.proto_tok(it[1]), gen.points_tok(it[2]))
 
 
@@ -78,9 +79,10 @@ def flat_items(items):
     out = []
     for it in items:
         if it[0] == "I":
-            out.append(("B", it[2]))
-            if it[3] is not None:
-                out.append(("B", it[3]))
+            for k in range(len(it[1])):
+                out.append(("B", it[2 + 2 * k]))
+                if it[3 + 2 * k] is not None:
+                    out.append(("B", it[3 + 2 * k]))
         else:
             out.append(it)
     return out
